@@ -75,11 +75,19 @@ Lemma adder_safe_fits : forall maxp s a, adder_safe maxp s a = true ->
 Proof.
   intros maxp s a Hs p Hp. unfold adder_safe in Hs.
   destruct (lin_items (a_dec a)) as [ne oc] eqn:Hl.
+  apply andb_prop in Hs. destruct Hs as [Hs Hsize].
   apply andb_prop in Hs. destruct Hs as [Hs Hmax].
   apply andb_prop in Hs. destruct Hs as [Hlo Hdec].
   apply Z.leb_le in Hlo.
   unfold accepts in Hp. apply andb_prop in Hp. destruct Hp as [Hp1 Hp2]. apply Z.leb_le in Hp1.
   assert (P1 : 1 <= p) by lia.
+  assert (Hlim : buf_size a p <= vla_limit).
+  { unfold buf_size. rewrite Z.max_l by lia.
+    apply orb_prop in Hsize. destruct Hsize as [Hz|Hz].
+    - apply andb_prop in Hz. destruct Hz as [Hz1 Hz2]. apply Z.eqb_eq in Hz1. apply Z.leb_le in Hz2. rewrite Hz1. lia.
+    - destruct (s_hi s) as [h|]; [|discriminate].
+      apply andb_prop in Hz. destruct Hz as [Hz1 Hz2]. apply Z.leb_le in Hz1. apply Z.leb_le in Hz2.
+      apply Z.leb_le in Hp2. assert (p <= Z.max h 1) by lia. nia. }
   assert (Hdecfit : max_text p (a_dec a) + 1 <= buf_size a p).
   { pose proof (max_text_lin p (a_dec a) P1) as [Hb [Hn1 Hn2]]. rewrite Hl in *. simpl in *.
     unfold buf_size. rewrite Z.max_l by lia.
@@ -88,7 +96,8 @@ Proof.
     - destruct (s_hi s) as [h|]; [|discriminate].
       apply andb_prop in Hd. destruct Hd as [Hd1 Hd2]. apply Z.leb_le in Hd1. apply Z.leb_le in Hd2.
       apply Z.leb_le in Hp2. nia. }
-  unfold fits, fmt_used. apply Z.leb_le.
+  unfold fits. apply andb_true_intro. split; [|apply Z.leb_le; exact Hlim].
+  unfold fmt_used. apply Z.leb_le.
   destruct (a_max a) as [f|]; [|exact Hdecfit].
   destruct (Z.eqb_spec p maxp); [|exact Hdecfit].
   destruct (lin_items f) as [ne2 oc2] eqn:Hl2.
@@ -119,8 +128,9 @@ Proof.
   - apply adder_safe_fits; assumption.
   - intros p. unfold fits, fmt_used, buf_size.
     destruct (a_max (c_int c)); [discriminate|].
-    apply Z.eqb_eq in H2. rewrite H2. apply Z.leb_le. apply Z.leb_le in H3.
-    rewrite (max_text_const p) by assumption. lia.
+    apply Z.eqb_eq in H3. rewrite H3. apply Z.leb_le in H4. apply Z.leb_le in H2.
+    rewrite (max_text_const p) by assumption.
+    apply andb_true_intro. split; apply Z.leb_le; lia.
 Qed.
 
 (* a configuration that is not safe: the buffers of the tree before the fix of finding D26
